@@ -13,6 +13,7 @@ import (
 	"strings"
 
 	"cosmossdk.io/log"
+	"github.com/cosmos/cosmos-sdk/codec"
 	"github.com/cosmos/cosmos-sdk/types/bech32"
 	"github.com/cosmos/gogoproto/proto"
 	transfertypes "github.com/cosmos/ibc-go/v8/modules/apps/transfer/types"
@@ -32,6 +33,7 @@ import (
 var (
 	parser1, parser2   *adapterctrl.IBCParser
 	adapter1, adapter2 *adapterctrl.IBCAdapter
+	codecForFresh      codec.Codec
 )
 
 func init() {
@@ -41,6 +43,7 @@ func init() {
 	}
 	enc := testutil.MakeTestEncodingConfig("noble")
 	orbiter.RegisterInterfaces(enc.InterfaceRegistry)
+	codecForFresh = enc.Codec
 	var err error
 	if parser1, err = adapterctrl.NewIBCParser(enc.Codec); err != nil {
 		panic(err)
@@ -102,6 +105,17 @@ func CheckMemo(s string) error {
 		}
 		if e1 == nil && !same(p1, p2) {
 			return fmt.Errorf("parsed payload differs between parses of the same memo")
+		}
+	}
+	// ... and not of the parser's history: a parser built just now must agree with the two that
+	// have parsed everything before
+	if fresh, err := adapterctrl.NewIBCParser(codecForFresh); err == nil {
+		p3, e3, pan := parse(fresh, s)
+		if pan != nil {
+			return fmt.Errorf("parser panicked: %v", pan)
+		}
+		if (e1 == nil) != (e3 == nil) || (e1 != nil && e1.Error() != e3.Error()) || (e1 == nil && !same(p1, p3)) {
+			return fmt.Errorf("a fresh parser and a long-lived parser disagree on the same memo (%v / %v): parsing depends on the parser's history", e1, e3)
 		}
 	}
 	if e1 == nil {
